@@ -414,7 +414,32 @@ fn run_case_comp(case: &J) -> J {
     let mut trace = vec![];
     for op in case["prog"].as_array().cloned().unwrap_or_default() {
         let mut rec = op.clone();
+        if op["op"] == "build" {
+            rec["req"] = json!(ref_type(&json!({"kind":"func","params":op["params"],"results":op["results"]})));
+        }
         let r: Result<J, String> = guarded(|| {
+            if op["op"] == "build" {
+                // FunctionBuilder::finish_component on module 0 of the component
+                let params: Vec<DataType> = strs(&op["params"]).iter().map(|x| dt(x)).collect();
+                let results: Vec<DataType> = strs(&op["results"]).iter().map(|x| dt(x)).collect();
+                let mut fb = FunctionBuilder::new(&params, &results);
+                let mut lids = vec![];
+                for l in strs(&op["locals"]) {
+                    lids.push(*fb.add_local(dt(&l)));
+                }
+                for b in strs(&op["body"]) {
+                    body_op(&mut fb, &b);
+                }
+                if let Some(n) = op["name"].as_str() {
+                    if !n.is_empty() {
+                        fb.set_name(n.to_string());
+                    }
+                }
+                let id = *fb.finish_component(&mut comp, wirm::ir::id::ModuleID(0));
+                let ename = format!("built{}", op["n"].as_u64().unwrap_or(0));
+                comp.modules[0].exports.add_export_func(ename.clone(), id, None);
+                return json!({"id":id,"lids":lids,"export":ename});
+            }
             let f = op["f"].as_u64().unwrap() as u32;
             let fid = FunctionID(nimp + f - 1);
             let ty = dt(op["ty"].as_str().unwrap());
